@@ -129,6 +129,10 @@ def tlc(module, cfg, metadir, env=None, workers=4, timeout=600, simulate=None, d
         m = re.search(r"(\d+) states generated, (\d+) distinct states found", line)
         if m:
             r.generated, r.distinct = int(m.group(1)), int(m.group(2))
+        m = re.search(r"The number of states generated: (\d+)", line)       # simulation mode
+        if m and r.generated == 0:
+            r.generated = int(m.group(1))
+            r.distinct = int(m.group(1))
         m = re.search(r"depth of the complete state graph search is (\d+)", line)
         if m:
             r.depth = int(m.group(1))
